@@ -21,12 +21,14 @@ LEVEL = "model_checking"
 
 NIST = ["P-192", "P-224", "P-256", "P-384", "P-521"]
 WS_BITS = {"P-192": 192, "P-224": 224, "P-256": 256, "P-384": 384, "P-521": 521}
-# measured milliseconds of TLC time (one worker) per certified link of a scalar multiple / per ladder step, and per record without a chain
-LINK_MS = {"P-192": 10, "P-224": 12, "P-256": 14, "P-384": 22, "P-521": 30, "Ed25519": 15, "Ed448": 45}
-LADDER_MS = {"Curve25519": 255 * 25, "Curve448": 448 * 40}
-# links of one square-and-multiply chain g^e mod p (3/2 per bit of e) times the cost of a link (two products of the size of p)
-DSA_KIDS = {"toy": (17, 24), "d512": (160, 512), "d1024": (160, 1024), "d2048": (256, 2048)}
-RSA_MS = {"fix512": 40, "fix512r": 40, "fix768": 60, "gen1024": 90}
+# Cost model of the judge, in milliseconds of one TLC worker on an idle core (calibrated on a sample of 2 600 records per family): a record
+# costs REC_MS (deserialisation, range checks, short products) plus its certified chains: per link of a scalar multiple, per step of the
+# RFC 7748 ladder, per link of a modular power (two products of the size of the modulus)
+REC_MS = 90
+LINK_MS = {"P-192": 13, "P-224": 16, "P-256": 18, "P-384": 29, "P-521": 39, "Ed25519": 15, "Ed448": 45}
+LADDER_MS = {"Curve25519": 255 * 29, "Curve448": 448 * 46}
+DSA_KIDS = {"toy": (17, 24), "d512": (160, 512), "d1024": (160, 1024), "d2048": (256, 2048)}       # bits of q, bits of p
+RSA_MS = {"fix512": 70, "fix512r": 70, "fix768": 100, "gen1024": 165}
 
 
 def _note(t0, msg):
@@ -34,7 +36,8 @@ def _note(t0, msg):
 
 
 def chain_ms(ebits, pbits):
-    return int(1.5 * ebits * max(1.0, (pbits / 100.0) ** 2 / 20.0))
+    """square-and-multiply chain of g^e mod p: 3/2 links per bit of e"""
+    return int(1.5 * ebits * (1.2 + (pbits / 100.0) ** 2 / 12.5))
 
 
 # ------------------------------------------------------------------------------------------ concretisation of the model's cases
@@ -59,16 +62,16 @@ def concretise(case, n, rnd, quick):
     if ty == "dsa":
         priv = form in ("construct:priv", "import:openssl", "import:pkcs8")
         if quick:
-            kid = ["toy", "d512", "toy", "d512", "toy", "d1024"][n % 6]
+            kid = ["toy", "toy", "d512", "toy", "toy", "d1024", "toy", "toy", "d512", "toy", "toy", "toy"][n % 12]
         else:
             kid = ["toy", "d512", "d1024", "d512", "d1024", "d2048" if n % 36 == 5 else "d1024"][n % 6]
         item["kid"] = kid
         eb, pb = DSA_KIDS[kid]
-        return item, 25 + chain_ms(eb, pb) * (2 if priv else 1)
+        return item, 2 * REC_MS + chain_ms(eb, pb) * (2 if priv else 1)
     if ty == "elgamal":
         kid = ["eg128", "eg256"][n % 2]
         item["kid"] = kid
-        return item, 25 + (chain_ms(128 if kid == "eg128" else 256, 128 if kid == "eg128" else 256) if form == "construct:priv" else 0)
+        return item, REC_MS + (chain_ms(128 if kid == "eg128" else 256, 128 if kid == "eg128" else 256) if form == "construct:priv" else 0)
     if ty == "ws":
         # ws19 (room for x + p in the encoding) stands for P-521, ws31 for the curves whose prime fills its octets; construct() takes integers of any size
         model_curve = "ws31" if case["base"] == 2 else "ws19"
@@ -87,21 +90,21 @@ def concretise(case, n, rnd, quick):
         # after "wrong curve" the key is judged on the other curve
         links = 0
         if hasd and (case["why"] == "" or "*G" in case["why"]):
-            links = int(1.5 * WS_BITS[name]) if (full or size == "full") else 0 if size == "one" else 32
-        return item, 40 + links * LINK_MS[name]
+            links = int(1.5 * WS_BITS[name]) if (full or size == "full") else 0 if size == "one" else 18
+        return item, REC_MS + links * LINK_MS[name]
     if ty == "ed":
         name = "Ed448" if n % 4 == 3 else "Ed25519"
         if form == "import:openssh":
             name = "Ed25519"
         item["kid"] = "%s/seed/%d" % (name, n % 3)
-        ms = 50
+        ms = REC_MS
         if needs_private_chain(case, ("construct:seed", "construct:seedQ", "import:pkcs8")):
             ms += int(1.5 * (253 if name == "Ed25519" else 447)) * LINK_MS[name]
         return item, ms
     if ty == "mt":
         name = "Curve25519" if case["base"] == 1 else "Curve448"
         item["kid"] = "%s/seed/%d" % (name, n % 3)
-        ms = 60
+        ms = REC_MS + 30
         if needs_private_chain(case, ("construct:seed", "construct:seedQ", "import:pkcs8")):
             ms += LADDER_MS[name]
         return item, ms
@@ -148,10 +151,11 @@ def anchors():
     return out
 
 
-BUDGET_S = {   # estimated TLC seconds per type: (records without a long chain, records with one)
-    "quick": {"rsa": (85, 12), "dsa": (25, 55), "elgamal": (22, 0), "ws": (85, 30), "ed": (12, 70), "mt": (12, 70)},
-    "thorough": {"rsa": (1300, 600), "dsa": (300, 2400), "elgamal": (400, 0), "ws": (2200, 900), "ed": (150, 2300), "mt": (200, 2300)},
+BUDGET_S = {   # estimated seconds of one TLC worker per type: (records without a long chain, records with one)
+    "quick": {"rsa": (110, 10), "dsa": (45, 25), "elgamal": (25, 0), "ws": (105, 35), "ed": (20, 75), "mt": (20, 75)},
+    "thorough": {"rsa": (1300, 300), "dsa": (350, 1300), "elgamal": (300, 0), "ws": (1400, 600), "ed": (250, 1400), "mt": (300, 1400)},
 }
+SINGLE_SHARE = 0.7      # quick tier: the cases with at most one corruption may use this share of the budget of the records without a long chain
 HEAVY_MS = 1500
 
 
@@ -185,7 +189,7 @@ def plan_cases(cases, ctx, rnd):
         it, ms = concretise(c, off + len(items), rnd, quick)
         it["kid"] = "%s/%s/%d" % (name, "short" if ty == "ws" else "seed", (off + len(items)) % 3)
         if ty == "mt" and "seed" in form and c["why"] in ("", "scalar(seed)*G = u"):
-            ms = 60 + LADDER_MS[name]
+            ms = REC_MS + LADDER_MS[name]
         it["anchor"] = True
         budget[ty][1 if ms >= HEAVY_MS else 0] -= ms
         take(it, ms, ty, "anchors")
@@ -200,7 +204,8 @@ def plan_cases(cases, ctx, rnd):
             it["deep"] = True
             ms += deep_ms(it)
         b = 1 if ms >= HEAVY_MS else 0
-        if budget[ty][b] < ms:
+        floor = (1 - SINGLE_SHARE) * 1000.0 * BUDGET_S[ctx.tier][ty][0] if quick and b == 0 and len(c["corr"]) < 2 else 0.0
+        if budget[ty][b] - floor < ms:
             k = "%s/%s" % (ty, "long chain" if b else "double corruption" if len(c["corr"]) >= 2 else "single corruption")
             stats["not_taken_for_budget"][k] = stats["not_taken_for_budget"].get(k, 0) + 1
             continue
@@ -223,8 +228,9 @@ def plan_generate(ctx, rnd, cid0):
               {"what": "dsa-domain", "bits": 1024, "kid": "d1024", "corr": [rnd.choice(["g=1", "g=p-1", "g+p"])]},
               {"what": "dsa-domain", "bits": 1024, "kid": "d1024", "corr": [rnd.choice(["q:=other prime", "q:=2q", "p+2q"])]}]
         g += [{"what": "elgamal", "bits": rnd.choice([161, 168, 176, 184, 192])}]
-        big = rnd.choice(["P-384", "P-521"])
-        curves = ["P-192", "P-224", "P-256", big, "Ed25519", "Curve25519", rnd.choice(["Ed448", "Curve448"])]
+        curves = [rnd.choice(["P-192", "P-224"]), "P-256", rnd.choice(["P-384", "P-521"]), "Ed25519", "Curve25519"]
+        if ctx.seed % 3 == 0:                                   # the two long chains (30 s / 20 s of TLC) in one run out of three
+            curves.append(["Ed448", "Curve448"][(ctx.seed // 3) % 2])
         g += [{"what": "ecc", "curve": c} for c in curves]
     else:
         for bits, e, deep in [(1024, 65537, True), (1024, 3, True), (1024, 65537, False), (odd, 65537, True), (1536, rnd.choice([3, 17, 65537]), False), (2048, 65537, True),
@@ -408,8 +414,8 @@ def binding_checks(quick):
     gen = lambda t: t["fam"] == "gen" and t["exc"] == "none"   # noqa: E731
     check(lambda t: gen(t) and t["what"] == "rsa" and not t["deep"], bits_plus_one, "generate RSA: a key one bit shorter than requested")
     check(lambda t: gen(t) and t["what"] == "rsa" and not t["deep"], swap_quotient, "generate RSA: a wrong untrusted quotient of e*d by lcm(p-1, q-1)")
-    check(lambda t: gen(t) and t["what"] == "rsa" and not t["deep"], setk("u"), "generate RSA: one bit of the returned u")
-    check(lambda t: gen(t) and t["what"] == "dsa" and not t["deep"] and not t["hasdomain"], setk("x"), "generate DSA: one bit of the returned x")
+    check(lambda t: gen(t) and t["what"] == "rsa" and not t["deep"], setk("dp"), "generate RSA: one bit of the returned dp (CRT)")
+    check(lambda t: gen(t) and t["what"] == "dsa" and not t["deep"] and not t["hasdomain"], setk("y"), "generate DSA: one bit of the returned y")
     check(lambda t: gen(t) and t["what"] == "elgamal", setk("y"), "generate ElGamal: one bit of the returned y")
     check(lambda t: gen(t) and t["what"] == "ecc" and t["curve"] in ("P-192", "P-224", "P-256"), setk("y"), "generate ECC (%(curve)s): one bit of the returned point")
     check(lambda t: gen(t) and t["what"] == "ecc" and t["curve"] == "Curve25519", setk("x"), "generate ECC (Curve25519): one bit of the returned u")
@@ -462,7 +468,7 @@ def run(ctx):
     verdicts = {}
     batch = 3500
     for b in range(0, len(recs), batch):
-        verdicts.update(ctx.validate("KeyTrace", recs[b:b + batch], family="keys (batch %d)" % (b // batch + 1), timeout=3400, weight=lambda t: t["cost"] + 5))
+        verdicts.update(ctx.validate("KeyTrace", recs[b:b + batch], family="keys (batch %d)" % (b // batch + 1), timeout=3400, weight=lambda t: t["cost"] + 80))
     _note(t0, "judged %d records" % len(recs))
     wanted = binding_checks(quick)
     per, outcomes, disagree, classed, classed1, samples = {}, {}, [], 0, 0, {}
@@ -518,7 +524,7 @@ def run(ctx):
         good, bad = copy.deepcopy(g), corrupt(copy.deepcopy(g))
         good["tid"], bad["tid"] = 2 * i + 1, 2 * i + 2
         pairs += [good, bad]
-    v, _ = tlc.validate_traces("KeyTrace", pairs, shards=min(16, len(pairs)), timeout=1500, weight=lambda t: t["cost"] + 5)
+    v, _ = tlc.validate_traces("KeyTrace", pairs, shards=min(16, len(pairs)), timeout=1500, weight=lambda t: t["cost"] + 80)
     for i, (g, corrupt, family) in enumerate(checks):
         gv, bv = v[2 * i + 1][1], v[2 * i + 2][1]
         passed = gv == "ok" and bv != "ok" and (not bv.startswith("harness:") or any(h in family for h in HARNESS_OK))
